@@ -30,8 +30,13 @@ Local Open Scope Z_scope.
 Definition DB : Z := c_DIGIT_BIT.                      (* DIGIT_BIT *)
 Definition W : Z := 2 ^ DB.                            (* one more than PSTM_MASK *)
 Definition MAXN : nat := Z.to_nat c_PSTM_MAX_SIZE.     (* PSTM_MAX_SIZE *)
-Definition dmod (x : Z) : Z := x mod W.                (* (pstm_digit) x *)
-Definition wmod (x : Z) : Z := x mod (W * W).          (* arithmetic in pstm_word *)
+(* shifts and masks, as in the C; BigProofs.v relates them to mod / div (Z.land_ones, Z.shiftr_div_pow2) *)
+Definition dmod (x : Z) : Z := Z.land x (Z.ones DB).           (* (pstm_digit) x        = x mod W *)
+Definition wmod (x : Z) : Z := Z.land x (Z.ones (DB + DB)).    (* pstm_word arithmetic   = x mod W^2 *)
+Definition hi (x : Z) : Z := Z.shiftr x DB.                     (* x >> DIGIT_BIT         = x / W *)
+Definition shr (x n : Z) : Z := Z.shiftr x n.                   (* x >> n *)
+Definition shl (x n : Z) : Z := dmod (Z.shiftl x n).            (* (pstm_digit)(x << n) *)
+Definition lowbits (x n : Z) : Z := Z.land x (Z.ones n).        (* x & ((1 << n) - 1) *)
 
 (* ---- results *)
 Inductive err := EMem | ELimit | EArg | EFail | EFault.
@@ -77,8 +82,11 @@ Definition set_sign (c : id) (s : bool) (st : store) : store := let p := get st 
 Definition set_dp (c : id) (d : list Z) (st : store) : store := let p := get st c in set st c (mkp d (used p) (sign p)).
 Definition wr (c : id) (x : nat) (v : Z) (st : store) : store := set st c (wrd (get st c) x v).
 (* for (x = lo; x < hi; x++) c->dp[x] = 0; *)
-Definition zero_range (l : list Z) (lo hi : nat) : list Z :=
-  firstn lo l ++ repeat 0 (Nat.min hi (length l) - lo) ++ skipn (Nat.max lo (Nat.min hi (length l))) l.
+Fixpoint zero_range (l : list Z) (lo hi : nat) : list Z :=
+  match l with
+  | [] => []
+  | d :: r => (match lo, hi with O, S _ => 0 | _, _ => d end) :: zero_range r (Nat.pred lo) (Nat.pred hi)
+  end.
 Definition zero_digits (c : id) (lo hi : nat) (st : store) : store := set_dp c (zero_range (dp (get st c)) lo hi) st.
 
 (* ---- loop combinators: one destination digit per iteration, operands read through the store *)
@@ -172,7 +180,7 @@ Definition pstm_count_bits (a : id) (st : store) : Z :=
   let A := get st a in
   if (used A =? 0)%nat then 0 else (Z.of_nat (used A) - 1) * DB + digit_bits (rdd A (used A - 1)).
 Definition pstm_unsigned_bin_size (a : id) (st : store) : Z :=
-  let size := pstm_count_bits a st in size / 8 + (if size mod 8 =? 0 then 0 else 1).
+  let size := pstm_count_bits a st in shr size 3 + (if Z.land size 7 =? 0 then 0 else 1).
 
 (* ---- s_pstm_add (967-1031): unsigned addition |a| + |b| -> c *)
 Definition add_body (a b : id) (x : nat) (t : Z) (st : store) : Z * Z :=
@@ -180,7 +188,7 @@ Definition add_body (a b : id) (x : nat) (t : Z) (st : store) : Z * Z :=
   let adp := if (used A <=? x)%nat then 0 else rdd A x in
   let bdp := if (used B <=? x)%nat then 0 else rdd B x in
   let t' := wmod (t + adp + bdp) in
-  (dmod t', t' / W).
+  (dmod t', hi t').
 Definition s_pstm_add (a b c : id) (st : store) : res store :=
   let y := Nat.max (used (get st a)) (used (get st b)) in
   let oldused := used (get st c) in
@@ -206,12 +214,12 @@ Definition s_pstm_add (a b c : id) (st : store) : res store :=
 (* ---- pstm_sub_s (915-954): unsigned subtraction |a| - |b| -> c, documented precondition |a| >= |b| *)
 Definition sub_body1 (a b : id) (x : nat) (t : Z) (st : store) : Z * Z :=
   let t' := wmod (rdd (get st a) x - (rdd (get st b) x + t)) in
-  (dmod t', (t' / W) mod 2).
+  (dmod t', Z.land (hi t') 1).
 Definition sub_body2 (a : id) (x : nat) (t : Z) (st : store) : Z * Z :=
   let t' := wmod (rdd (get st a) x - t) in
   (* FIXED: the unfixed code had "t = (t >> DIGIT_BIT)" without "& 1": after a borrow out of a zero digit
      the next digit had 2^64-1 subtracted instead of 1 *)
-  (dmod t', (t' / W) mod 2).
+  (dmod t', Z.land (hi t') 1).
 Definition pstm_sub_s (a b c : id) (st : store) : res store :=
   if (used (get st a) <? used (get st b))%nat then Err ELimit else
   do st <- (if (alloc (get st c) <? used (get st a))%nat then pstm_grow c (used (get st a)) st else Ok st);
@@ -250,7 +258,7 @@ Definition pstm_sub_d (a : id) (b : Z) (c : id) (st : store) : res store :=
 
 (* ---- pstm_mul_d (1289-1323): c = a * b, b one digit *)
 Definition muld_body (a : id) (b : Z) (x : nat) (w : Z) (st : store) : Z * Z :=
-  let w' := wmod (rdd (get st a) x * b + w) in (dmod w', w' / W).
+  let w' := wmod (rdd (get st a) x * b + w) in (dmod w', hi w').
 Definition pstm_mul_d (a : id) (b : Z) (c : id) (st : store) : res store :=
   do st <- (if (alloc (get st c) <? used (get st a) + 1)%nat then pstm_grow c (used (get st a) + 1) st else Ok st);
   let oldused := used (get st c) in
@@ -267,7 +275,7 @@ Definition pstm_mul_d (a : id) (b : Z) (c : id) (st : store) : res store :=
 
 (* ---- pstm_mul_2 (849-908): b = 2a *)
 Definition mul2_body (a : id) (x : nat) (r : Z) (st : store) : Z * Z :=
-  let d := rdd (get st a) x in (dmod (d * 2) + r, d / 2 ^ (DB - 1)).          (* (d << 1) | r ; d >> (DIGIT_BIT-1) *)
+  let d := rdd (get st a) x in (Z.lor (shl d 1) r, shr d (DB - 1)).          (* (d << 1) | r ; d >> (DIGIT_BIT-1) *)
 Definition pstm_mul_2 (a b : id) (st : store) : res store :=
   do st <- (if (alloc (get st b) <? used (get st a) + 1)%nat then pstm_grow b (used (get st a) + 1) st else Ok st);
   let oldused := used (get st b) in
@@ -283,7 +291,7 @@ Definition pstm_mul_2 (a b : id) (st : store) : res store :=
 
 (* ---- pstm_div_2 (1418-1464): b = a / 2 (magnitude) *)
 Definition div2_body (a : id) (x : nat) (r : Z) (st : store) : Z * Z :=
-  let d := rdd (get st a) x in (d / 2 + r * 2 ^ (DB - 1), d mod 2).           (* (d >> 1) | (r << 63) ; d & 1 *)
+  let d := rdd (get st a) x in (Z.lor (shr d 1) (shl r (DB - 1)), Z.land d 1).  (* (d >> 1) | (r << 63) ; d & 1 *)
 Definition pstm_div_2 (a b : id) (st : store) : res store :=
   do st <- (if (alloc (get st b) <? used (get st a))%nat then remap EMem (pstm_grow b (used (get st a)) st) else Ok st);
   let oldused := used (get st b) in
@@ -322,11 +330,11 @@ Definition pstm_2expt (a : id) (b : Z) (st : store) : res store :=
   let st := set_used a (S z) st in
   do st <- (if (alloc (get st a) <? S z)%nat then remap EMem (pstm_grow a (S z) st) else Ok st);
   if (alloc (get st a) <=? z)%nat then Err EFault else
-  Ok (wr a z (2 ^ (b mod DB)) st).
+  Ok (wr a z (shl 1 (b mod DB)) st).
 
 (* ---- pstm_mul_2d (1197-1244, static): c = a * 2^b, b >= 0 *)
 Definition mul2d_body (c : id) (b : Z) (x : nat) (carry : Z) (st : store) : Z * Z :=
-  let d := rdd (get st c) x in (dmod (d * 2 ^ b + carry), d / 2 ^ (DB - b)).   (* (d << b) + carry ; d >> (DIGIT_BIT - b) *)
+  let d := rdd (get st c) x in (dmod (shl d b + carry), shr d (DB - b)).   (* (d << b) + carry ; d >> (DIGIT_BIT - b) *)
 Definition pstm_mul_2d (a : id) (b : Z) (c : id) (st : store) : res store :=
   do st <- remap EMem (pstm_copy a c st);
   do st <- (if DB <=? b then remap EMem (pstm_lshd c (Z.to_nat (b / DB)) st) else Ok st);
@@ -357,13 +365,12 @@ Definition pstm_mod_2d (a : id) (b : Z) (c : id) (st : store) : res store :=
   (* "&= ~0 >> (DIGIT_BIT - b)": the x86-64 shift instruction takes the count modulo 64 (for b > 64 the C
      expression has a negative shift count; the compiled code masks with 2^(b mod 64) - 1, all ones if 0) *)
   let k := Z.to_nat (b / DB) in
-  let m := if b mod DB =? 0 then W else 2 ^ (b mod DB) in
-  let st := wr c k (rdd (get st c) k mod m) st in
+  let st := wr c k (lowbits (rdd (get st c) k) (if b mod DB =? 0 then DB else b mod DB)) st in
   Ok (pstm_clamp c st).
 
 (* ---- pstm_div_2d (1335-1411): c = a / 2^b, d = a mod 2^b (optional) *)
 Definition div2d_body (c : id) (D : Z) (x : nat) (r : Z) (st : store) : Z * Z :=
-  let d := rdd (get st c) x in (d / 2 ^ D + dmod (r * 2 ^ (DB - D)), d mod 2 ^ D).
+  let d := rdd (get st c) x in (Z.lor (shr d D) (shl r (DB - D)), lowbits d D).       (* (d >> D) | (r << shift) ; d & mask *)
 Definition pstm_div_2d (a : id) (b : Z) (c : id) (d : option id) (st : store) : res store :=
   if b <=? 0 then
     do st <- remap EMem (pstm_copy a c st);
@@ -394,9 +401,9 @@ Definition pstm_div_2d (a : id) (b : Z) (c : id) (d : option id) (st : store) : 
 Definition muladd (acc : Z * Z * Z) (i j : Z) : Z * Z * Z :=
   let '(c0, c1, c2) := acc in
   let p := i * j in
-  let s0 := c0 + p mod W in
-  let s1 := c1 + p / W + s0 / W in
-  (s0 mod W, s1 mod W, (c2 + s1 / W) mod W).
+  let s0 := c0 + dmod p in
+  let s1 := c1 + hi p + hi s0 in
+  (dmod s0, dmod s1, dmod (c2 + hi s1)).
 Definition comba_forward (acc : Z * Z * Z) : Z * Z * Z := let '(_, c1, c2) := acc in (c1, c2, 0).
 (* for (iz = 0; iz < iy; ++iz) MULADD( *tmpx++, *tmpy-- ); *)
 Fixpoint mul_col (da db : list Z) (tx ty iy : nat) (acc : Z * Z * Z) : Z * Z * Z :=
@@ -527,7 +534,7 @@ Definition pstm_montgomery_calc_normalization (a b : id) (st : store) : res stor
 (* ---- pstm_montgomery_reduce (pstm_montgomery_reduce.c 379-482) *)
 (* INNERMUL (89-101): rdx:rax = mu * *tmpm++ ; rax += cy ; rax += _c[0] ; _c[0] = rax ; cy = rdx.
    INNERMUL8 is eight of them. *)
-Definition innermul (mu : Z) (m cv cy : Z) : Z * Z := let t := mu * m + cy + cv in (t mod W, t / W).
+Definition innermul (mu : Z) (m cv cy : Z) : Z * Z := let t := mu * m + cy + cv in (dmod t, hi t).
 Fixpoint inner_loop (mu : Z) (dm : list Z) (c : list Z) (k y n : nat) (cy : Z) : list Z * Z :=
   match n with
   | O => (c, cy)
@@ -540,7 +547,7 @@ Fixpoint propcarry (fuel : nat) (c : list Z) (k : nat) (cy : Z) : res (list Z) :
   match fuel with
   | O => Err EFault
   | S f => if (length c <=? k)%nat then Err EFault else
-           let s := nth k c 0 + cy in propcarry f (upd c k (s mod W)) (S k) (s / W)
+           let s := nth k c 0 + cy in propcarry f (upd c k (dmod s)) (S k) (hi s)
   end.
 Fixpoint mont_rounds (n x : nat) (pa : nat) (dm : list Z) (mp : Z) (c : list Z) : res (list Z) :=
   match n with
@@ -568,15 +575,16 @@ Definition pstm_montgomery_reduce (a m : id) (mp : Z) (st : store) : res store :
 
 (* ================================================================== helpers for the drivers / examples *)
 Fixpoint digits_of (n : nat) (v : Z) : list Z :=        (* n little-endian digits of v >= 0 *)
-  match n with O => [] | S n' => v mod W :: digits_of n' (v / W) end.
+  match n with O => [] | S n' => dmod v :: digits_of n' (hi v) end.
 Fixpoint val (ds : list Z) : Z := match ds with [] => 0 | d :: r => d + W * val r end.
-Fixpoint ndigits (fuel : nat) (v : Z) : nat := match fuel with O => O | S f => if v <=? 0 then O else S (ndigits f (v / W)) end.
+Fixpoint ndigits (fuel : nat) (v : Z) : nat := match fuel with O => O | S f => if v <=? 0 then O else S (ndigits f (hi v)) end.
 (* operand as the harness builds it: magnitude, requested alloc, optional over-long used *)
 Definition mk_pint (neg : bool) (mag : Z) (alloc_req used_req : nat) : pint :=
   let n := ndigits (S MAXN) mag in
   let al := Nat.max (Nat.max (Nat.max alloc_req n) used_req) 1 in
   mkp (digits_of al mag) (Nat.max n used_req) neg.
-Definition pmag (p : pint) : Z := val (firstn (used p) (dp p)).
+Fixpoint val_fast (ds : list Z) : Z := match ds with [] => 0 | d :: r => d + Z.shiftl (val_fast r) DB end.   (* = val, for the driver *)
+Definition pmag (p : pint) : Z := val_fast (firstn (used p) (dp p)).
 Definition zflag (p : pint) : bool := forallb (fun d => d =? 0) (skipn (used p) (dp p)).
 Definition list_eqb (a b : list Z) : bool := (length a =? length b)%nat && forallb (fun xy => fst xy =? snd xy) (combine a b).
 Definition pint_eqb (p q : pint) : bool := list_eqb (dp p) (dp q) && (used p =? used q)%nat && Bool.eqb (sign p) (sign q).
